@@ -132,6 +132,8 @@ def main(tier):
             for s, key in (("ber", "der"), ("uper", "uper"), ("oer", "oer")):
                 if c[key] == "NONE":
                     continue
+                if len(c[key]) > 6000 and rng.chance(9, 10):
+                    continue          # the model's reference decoders are slow on very long values: keep a few
                 lines.append("dec %s %s %s" % (c["tn"], s, c[key]))
                 meta.append((c, s, key))
         out = run_mod(run, m, lines, "C01-dec")
